@@ -72,7 +72,7 @@ def _blocks(tier):
         ([b_cb_S, b_chainc, {'cb': 'A', 'txs': [{'ins': 1, 'outs': 'BA'}]}], []),
         ([{'cb': 'CA'}, {'cb': 'S', 'txs': [{'ins': 1, 'outs': 'A'}]}, b_chainc], []),
         ([cbAB, {'cb': 'A', 'txs': [{'ins': 1, 'outs': 'S'}, {'ins': 1, 'outs': 'C'}]}], []),
-        ([{'cb': 'AAA'}, {'cb': 'B', 'txs': [{'ins': 2, 'outs': 'SC'}]}, b_spend2c], []),
+        ([{'cb': 'AAA'}, {'cb': 'B', 'txs': [{'ins': 2, 'outs': 'SC'}]}], []),
         ([{'cb': 'AB'}, {'cb': 'BA'}, {'cb': 'C', 'txs': [{'ins': 2, 'outs': 'S'}]}],
          [['b0t0', 'b1t0'], ['b0t0', 'final_absent'], ['b1t0', 'final_absent']]),
         ([cbAB, b_chain], [['b0t0', 'b1t1'], ['b1t1', 'b1t2'], ['b0t0', 'b1t2']]),
